@@ -1,6 +1,7 @@
 #!/bin/bash
-# usage: tools/seed_verify3.sh <Cxx> <k> <check ids...>   (round 3: deliverables in /tmp/seedout_<Cxx>c/<k>/)
-# Same as seed_verify.sh; links /tmp/seedout_<Cxx>c<k> -> that directory so that seed_keep.py <Cxx>c<k> works.
+# usage: [ROUND=c|d] tools/seed_verify3.sh <Cxx> <k> <check ids...>   (rounds 3/4: deliverables in /tmp/seedout_<Cxx><round>/<k>/)
+# Same as seed_verify.sh; links /tmp/seedout_<Cxx><round><k> -> that directory so that seed_keep.py <Cxx><round><k> works.
+R="${ROUND:-c}"
 P="$1"; K="$2"; shift; shift
-rm -rf /tmp/seedout_${P}c${K}; ln -s /tmp/seedout_${P}c/${K} /tmp/seedout_${P}c${K}
-exec "$(dirname "$0")/seed_verify.sh" ${P}c${K} "$@"
+rm -rf /tmp/seedout_${P}${R}${K}; ln -s /tmp/seedout_${P}${R}/${K} /tmp/seedout_${P}${R}${K}
+exec "$(dirname "$0")/seed_verify.sh" ${P}${R}${K} "$@"
